@@ -34,19 +34,32 @@ Theorem C05_accept_no_panic : forall vh ofp self n ssid proto sh s m,
 Proof. exact accept_no_panic. Qed.
 Print Assumptions C05_accept_no_panic.
 
-(* An accepted, fresh message of the current round that the round rejects, and that is processed now
-   (a broadcast; or a p2p message whose round has no broadcast or whose sender's broadcast is already
-   stored -- otherwise it waits), ends the session in a clean abort naming exactly the sender. *)
+(* An accepted, fresh message of the current round that the round rejects, that was sent under our own
+   broadcast view ([same_view]: the attached digest equals ours for the previous round, if we have one), and
+   that is processed now (a broadcast; or a p2p message whose round has no broadcast or whose sender's
+   broadcast is already stored -- otherwise it waits), ends the session in a clean abort naming exactly the sender. *)
 Theorem C05_invalid_message_clean_abort : forall vh ofp self n ssid proto sh s m,
   reachable true vh ofp self n ssid proto sh s ->
   h_rt s = Running -> terminal s = false ->
   can_accept s m = true -> duplicate s m = false ->
-  0 < m_round m -> m_round m = h_cur s -> m_valid m = false ->
+  0 < m_round m -> m_round m = h_cur s -> m_valid m = false -> same_view s m = true ->
   (m_bcast m = true \/ sh_bcast (h_shape s) (m_round m) = false \/ slot s true (m_round m) (m_from m) <> None) ->
   let s' := accept vh ofp s m in
   h_closes s' = 1 /\ result_class s' = 2 /\ h_err s' = Some ([m_from m], EVerify) /\ h_rt s' = Running.
 Proof. exact invalid_message_clean_abort. Qed.
 Print Assumptions C05_invalid_message_clean_abort.
+
+(* The same message sent under a DIFFERENT broadcast view (valid or not) also ends in a clean abort, naming nobody. *)
+Theorem C05_foreign_view_clean_abort : forall vh ofp self n ssid proto sh s m,
+  reachable true vh ofp self n ssid proto sh s ->
+  h_rt s = Running -> terminal s = false ->
+  can_accept s m = true -> duplicate s m = false ->
+  0 < m_round m -> m_round m = h_cur s -> same_view s m = false ->
+  (m_bcast m = true \/ sh_bcast (h_shape s) (m_round m) = false \/ slot s true (m_round m) (m_from m) <> None) ->
+  let s' := accept vh ofp s m in
+  h_closes s' = 1 /\ result_class s' = 2 /\ h_err s' = Some ([], EBroadcastHash) /\ h_rt s' = Running.
+Proof. exact foreign_view_clean_abort. Qed.
+Print Assumptions C05_foreign_view_clean_abort.
 
 (* -- non-vacuity: an invalid broadcast, and an invalid p2p message after the sender's broadcast -- *)
 Example C05_ex_invalid_broadcast :
@@ -54,14 +67,14 @@ Example C05_ex_invalid_broadcast :
   reachable true ex_vh ex_ofp 0 3 7 9 ex_shape ex_start
   /\ h_rt ex_start = Running /\ terminal ex_start = false
   /\ can_accept ex_start m = true /\ duplicate ex_start m = false
-  /\ 0 < m_round m /\ m_round m = h_cur ex_start /\ m_valid m = false /\ m_bcast m = true
+  /\ 0 < m_round m /\ m_round m = h_cur ex_start /\ m_valid m = false /\ same_view ex_start m = true /\ m_bcast m = true
   /\ h_err (accept ex_vh ex_ofp ex_start m) = Some ([1], EVerify).
 Proof. split; [exists []; reflexivity|]. vm_compute. repeat split; lia. Qed.
 
 Example C05_ex_invalid_p2p_after_broadcast :
   let s := run_api true ex_vh ex_ofp ex_start [Accept (ex_b 2 2 0 true)] in
   let m := ex_p 2 2 0 false in
-  can_accept s m = true /\ duplicate s m = false /\ m_round m = h_cur s
+  can_accept s m = true /\ duplicate s m = false /\ m_round m = h_cur s /\ same_view s m = true
   /\ slot s true (m_round m) (m_from m) <> None
   /\ h_err (accept ex_vh ex_ofp s m) = Some ([2], EVerify) /\ h_closes (accept ex_vh ex_ofp s m) = 1.
 Proof. vm_compute. repeat split; discriminate. Qed.
@@ -70,4 +83,14 @@ Proof. vm_compute. repeat split; discriminate. Qed.
 Example C05_ex_invalid_p2p_waits :
   let m := ex_p 2 2 0 false in
   h_err (accept ex_vh ex_ofp ex_start m) = None /\ length (h_qp (accept ex_vh ex_ofp ex_start m)) = 1.
+Proof. vm_compute. repeat split. Qed.
+
+(* a round-3 broadcast carrying a view digest different from ours (ours is 102): clean abort, nobody named,
+   whether or not the round would have accepted the payload *)
+Example C05_ex_foreign_view :
+  let s := run_api true ex_vh ex_ofp ex_start (firstn 5 ex_honest) in
+  let m := ex_b 1 3 999 false in
+  h_rt s = Running /\ terminal s = false /\ can_accept s m = true /\ duplicate s m = false
+  /\ m_round m = h_cur s /\ same_view s m = false
+  /\ h_err (accept ex_vh ex_ofp s m) = Some ([], EBroadcastHash) /\ h_closes (accept ex_vh ex_ofp s m) = 1.
 Proof. vm_compute. repeat split. Qed.
